@@ -94,9 +94,15 @@ Section Prim.
   Proof.
     intros Hc Hv Hb. destruct (block_ok_off _ Hc Hb) as (off & Hco & Hdo & _ & _).
     exists off. split; [exact Hco|]. unfold data.
-    rewrite (bind_val _ _ _ _ _ (vec_handle_at _ _ _ _ Hv)).
+    assert (G : (if release cfg then ret tt else d <- is_default v;; (if d then panic else ret tt)) s = (Val tt, s)).
+    { destruct (release cfg); [reflexivity|].
+      rewrite (bind_val _ _ _ _ _ (is_default_at _ _ _ _ Hv)). reflexivity. }
+    rewrite (bind_val _ _ _ _ _ G).
     rewrite (bind_val _ _ _ _ _ (alignment_at _ _ _ _ Hc Hv Hb)).
-    unfold lift_opt. rewrite Hdo. reflexivity.
+    unfold lift_opt. rewrite Hdo.
+    change ((o <- ret off;; h <- vec_handle v;; ret match h with Sentinel => PWild | At b0 off0 => PElt b0 (off0 + o) 0 end) s)
+      with ((h <- vec_handle v;; ret match h with Sentinel => PWild | At b0 off0 => PElt b0 (off0 + off) 0 end) s).
+    rewrite (bind_val _ _ _ _ _ (vec_handle_at _ _ _ _ Hv)). reflexivity.
   Qed.
 
   Lemma as_ptr_at s v b bl : cfg_ok -> vec_at s v b bl -> block_ok bl ->
@@ -114,6 +120,14 @@ Section Prim.
     set_len v n s = (Val tt, upd_block s b (with_hdr bl n (h_cap bl) (h_align bl))).
   Proof.
     intros Hc Hv Hb. unfold set_len.
+    rewrite (bind_val _ _ _ _ _ (vec_handle_at _ _ _ _ Hv)).
+    rewrite (bind_val _ _ _ _ _ (hdr_block_at _ _ _ _ Hc Hv Hb)). reflexivity.
+  Qed.
+
+  Lemma add_len_at s v b bl n : cfg_ok -> vec_at s v b bl -> block_ok bl ->
+    add_len v n s = (Val tt, upd_block s b (with_hdr bl (h_len bl + n) (h_cap bl) (h_align bl))).
+  Proof.
+    intros Hc Hv Hb. unfold add_len.
     rewrite (bind_val _ _ _ _ _ (vec_handle_at _ _ _ _ Hv)).
     rewrite (bind_val _ _ _ _ _ (hdr_block_at _ _ _ _ Hc Hv Hb)). reflexivity.
   Qed.
